@@ -52,6 +52,9 @@ func c06Catalogue() []Case {
 		{Prof: "c06", Keys: []string{"x"}, Epilogue: true, Deep: true, Note: "writer || RC tx write-then-read || observer",
 			Prologue: []COp{{K: "begin", Slot: 1, Lvl: 1}},
 			Clients:  [][]COp{{set(0, 2)}, {{K: "set", Slot: 1, Key: 0, Len: 3}, {K: "get", Slot: 1, Key: 0}}, {get(0)}}},
+		{Prof: "c06", Keys: []string{"x"}, Epilogue: true, Deep: true, Note: "writer || RC tx write-then-read || RU observer",
+			Prologue: []COp{{K: "begin", Slot: 1, Lvl: 1}, {K: "begin", Slot: 2, Lvl: 0}},
+			Clients:  [][]COp{{set(0, 2)}, {{K: "set", Slot: 1, Key: 0, Len: 3}, {K: "get", Slot: 1, Key: 0}}, {{K: "get", Slot: 2, Key: 0}}}},
 		{Prof: "c06", Keys: []string{"x"}, Epilogue: true, Note: "RC tx read-own-write || autocommit writer",
 			Prologue: []COp{{K: "begin", Slot: 1, Lvl: 1}},
 			Clients:  [][]COp{{{K: "set", Slot: 1, Key: 0, Len: 2}, {K: "get", Slot: 1, Key: 0}, {K: "commit", Slot: 1}}, {set(0, 5), get(0)}}},
